@@ -31,6 +31,8 @@ ROOT = os.path.dirname(os.path.dirname(os.path.abspath(__file__)))
 VENV_PY = "/venv/bin/python"
 MODEL_TIMEOUT_MS = 5000
 DET_TIMEOUT_MS = 3000
+EXTRA_WITNESSES = 2     # further models per path, with longer strings / other integers
+EXTRA_TIMEOUT_MS = 2000
 MAX_SEQ = 64            # solve.concretize reads at most this many elements of a symbolic sequence
 
 
@@ -408,122 +410,164 @@ def witness(c, reg, ctx, pr, outcome, unit):
     r = guarded_check(s, MODEL_TIMEOUT_MS)
     if r != z3.sat:
         return skip("no-model:" + ("path-infeasible" if r == z3.unsat else "unknown"))
-    model = s.model()
-    for f in pc + extra:
+    def build(model):
+        """the witness for one model of the path condition (or {"skip": reason})"""
+        for f in pc + extra:
+            try:
+                val = z3.simplify(model.eval(f, model_completion=True))
+            except z3.Z3Exception:
+                return skip("no-model:eval")
+            if z3.is_false(val):
+                return skip("no-model:invalid")
+            if not z3.is_true(val):
+                # a quantified hypothesis the model evaluation does not decide: it must hold for the model's values of
+                # the symbols it mentions (uninterpreted functions stay free, so a formula over them is not accepted)
+                cs, _ = symbols([f])
+                q = z3.Solver()
+                q.set("timeout", DET_TIMEOUT_MS)
+                for cz in cs.values():
+                    q.add(cz == model.eval(cz, model_completion=True))
+                q.add(z3.Not(f))
+                if guarded_check(q, DET_TIMEOUT_MS) != z3.unsat:
+                    return skip("no-model:quantified-unverified")
         try:
-            val = z3.simplify(model.eval(f, model_completion=True))
-        except z3.Z3Exception:
-            return skip("no-model:eval")
-        if z3.is_false(val):
-            return skip("no-model:invalid")
-        if not z3.is_true(val):
-            # a quantified hypothesis the model evaluation does not decide: it must hold for the model's values of
-            # the symbols it mentions (uninterpreted functions stay free, so a formula over them is not accepted)
-            cs, _ = symbols([f])
-            q = z3.Solver()
-            q.set("timeout", DET_TIMEOUT_MS)
-            for cz in cs.values():
-                q.add(cz == model.eval(cz, model_completion=True))
-            q.add(z3.Not(f))
-            if guarded_check(q, DET_TIMEOUT_MS) != z3.unsat:
-                return skip("no-model:quantified-unverified")
-    try:
-        inputs = {k: solve.concretize(x, model) for k, x in ctx.inputs.items()}
-    except Exception as e:
-        return skip("concretize:" + type(e).__name__)
-    prob = input_problem(inputs)
-    if prob == "float" and reals_exact(model, in_consts.values()):
-        prob = input_problem(inputs, floats_ok=True)
-    if prob:
-        return skip("input:" + prob)
+            inputs = {k: solve.concretize(x, model) for k, x in ctx.inputs.items()}
+        except Exception as e:
+            return skip("concretize:" + type(e).__name__)
+        prob = input_problem(inputs)
+        if prob == "float" and reals_exact(model, in_consts.values()):
+            prob = input_problem(inputs, floats_ok=True)
+        if prob:
+            return skip("input:" + prob)
 
-    bind = None
-    if need_det:
-        # the path condition mentions symbols that are not inputs (auxiliary constants of a model, results of
-        # uninterpreted library functions): the witness is only usable if the inputs alone force this path
-        bind = [cz == model.eval(cz, model_completion=True) for cz in in_consts.values()]
-        why = ("uf:" + sorted(pc_ufs)[0]) if pc_ufs else ("aux:" + aux[0].split("!")[0]) if aux else "contract-call"
-        choice_idx = getattr(ctx, "choice_pc", None)
-        if choice_idx is None:
-            return skip("not-determined:" + why)
-        chosen = [pc[i] for i in sorted(choice_idx) if i < len(pc)]
-        defs = [p for i, p in enumerate(pc) if i not in choice_idx]
-        if chosen:
+        bind = None
+        if need_det:
+            # the path condition mentions symbols that are not inputs (auxiliary constants of a model, results of
+            # uninterpreted library functions): the witness is only usable if the inputs alone force this path
+            bind = [cz == model.eval(cz, model_completion=True) for cz in in_consts.values()]
+            why = ("uf:" + sorted(pc_ufs)[0]) if pc_ufs else ("aux:" + aux[0].split("!")[0]) if aux else "contract-call"
+            choice_idx = getattr(ctx, "choice_pc", None)
+            if choice_idx is None:
+                return skip("not-determined:" + why)
+            chosen = [pc[i] for i in sorted(choice_idx) if i < len(pc)]
+            defs = [p for i, p in enumerate(pc) if i not in choice_idx]
+            if chosen:
+                d = z3.Solver()
+                d.set("timeout", DET_TIMEOUT_MS)
+                for p in defs + bind:
+                    d.add(p)
+                d.add(z3.Not(z3.And(chosen)))
+                if guarded_check(d, DET_TIMEOUT_MS) != z3.unsat:
+                    return skip("not-determined:" + why)
+
+        def determined(v):
+            """the value of v is the same in every model of the path condition that has these inputs"""
+            zs = zexprs(v, [])
+            cs, ufs = symbols(zs)
+            if not ufs and all(n in in_consts for n in cs):
+                return True
+            nonlocal bind
+            if bind is None:
+                bind = [cz == model.eval(cz, model_completion=True) for cz in in_consts.values()]
             d = z3.Solver()
             d.set("timeout", DET_TIMEOUT_MS)
-            for p in defs + bind:
+            for p in pc + bind:
                 d.add(p)
-            d.add(z3.Not(z3.And(chosen)))
-            if guarded_check(d, DET_TIMEOUT_MS) != z3.unsat:
-                return skip("not-determined:" + why)
+            d.add(z3.Or([z != model.eval(z, model_completion=True) for z in zs]))
+            return guarded_check(d, DET_TIMEOUT_MS) == z3.unsat
 
-    def determined(v):
-        """the value of v is the same in every model of the path condition that has these inputs"""
-        zs = zexprs(v, [])
-        cs, ufs = symbols(zs)
-        if not ufs and all(n in in_consts for n in cs):
-            return True
-        nonlocal bind
-        if bind is None:
-            bind = [cz == model.eval(cz, model_completion=True) for cz in in_consts.values()]
-        d = z3.Solver()
-        d.set("timeout", DET_TIMEOUT_MS)
-        for p in pc + bind:
-            d.add(p)
-        d.add(z3.Or([z != model.eval(z, model_completion=True) for z in zs]))
-        return guarded_check(d, DET_TIMEOUT_MS) == z3.unsat
+        expect = {"fields": {}}
+        notes = []
 
-    expect = {"fields": {}}
-    notes = []
-
-    def take(name, v):
-        try:
-            cv = canon(v, model)
-        except NotSimple as e:
-            notes.append(f"{name}: not compared (type {e})")
-            return None
-        except (Unfaithful, z3.Z3Exception, Exception) as e:     # noqa
-            notes.append(f"{name}: not compared ({e})")
-            return None
-        if not determined(v):
-            notes.append(f"{name}: not compared (not determined by the inputs)")
-            return None
-        return {"v": cv}
-
-    if outcome == "return":
-        if result is not None:
-            r_ = take("result", result)
-            if r_ is not None:
-                expect["result"] = r_
-    else:
-        expect["exc"] = outcome.split(":", 1)[1]
-    for f, v in fields.items():
-        if f.startswith("__"):
-            continue
-        r_ = take("self." + f, v)
-        if r_ is not None:
-            expect["fields"][f] = r_
-    if selfobj is not None and reg.automat is not None and fd.cls is not None and isinstance(selfobj.fields.get("__state"), VInt):
-        mach = reg.automat.machine_of(fd.cls)
-        st = take("self.__state", selfobj.fields["__state"]) if mach is not None else None
-        if st is not None and 0 <= st["v"] < len(mach.states):
-            expect["state"] = mach.states[st["v"]]
-    expect["bcalls"] = [{"m": m, "args": [take(f"{m}(arg{i})", a) for i, a in enumerate(args)], "nkw": len(kw)}
-                        for m, args, kw in bcalls]
-    notes[:] = [n for n in notes if "(arg" not in n]
-    machines = {}
-    if reg.automat is not None:
-        for cd in list(reg.repo_classes.values()):
+        def take(name, v):
             try:
-                m_ = reg.automat.machine_of(cd)
-            except Exception:
-                m_ = None
-            if m_ is not None:
-                machines[cd.name] = list(m_.states)
-    return {"real_classes": sorted(reg.repo_classes), "machines": machines,
-            "modelled": sorted(k for k, h in reg.boundary.items() if getattr(h, "__name__", "") != "generic_boundary"),
-            "inputs_recorded": bool(reg.automat is None and getattr(reg, "input_as_boundary", False)), "decisions": [str(x) for x in unit], "outcome": "return" if outcome == "return" else "raise",
-            "inputs": inputs, "expect": expect, "notes": notes, "determinacy_checked": need_det}
+                cv = canon(v, model)
+            except NotSimple as e:
+                notes.append(f"{name}: not compared (type {e})")
+                return None
+            except (Unfaithful, z3.Z3Exception, Exception) as e:     # noqa
+                notes.append(f"{name}: not compared ({e})")
+                return None
+            if not determined(v):
+                notes.append(f"{name}: not compared (not determined by the inputs)")
+                return None
+            return {"v": cv}
+
+        if outcome == "return":
+            if result is not None:
+                r_ = take("result", result)
+                if r_ is not None:
+                    expect["result"] = r_
+        else:
+            expect["exc"] = outcome.split(":", 1)[1]
+        for f, v in fields.items():
+            if f.startswith("__"):
+                continue
+            r_ = take("self." + f, v)
+            if r_ is not None:
+                expect["fields"][f] = r_
+        if selfobj is not None and reg.automat is not None and fd.cls is not None and isinstance(selfobj.fields.get("__state"), VInt):
+            mach = reg.automat.machine_of(fd.cls)
+            st = take("self.__state", selfobj.fields["__state"]) if mach is not None else None
+            if st is not None and 0 <= st["v"] < len(mach.states):
+                expect["state"] = mach.states[st["v"]]
+        expect["bcalls"] = [{"m": m, "args": [take(f"{m}(arg{i})", a) for i, a in enumerate(args)], "nkw": len(kw)}
+                            for m, args, kw in bcalls]
+        notes[:] = [n for n in notes if "(arg" not in n]
+        machines = {}
+        if reg.automat is not None:
+            for cd in list(reg.repo_classes.values()):
+                try:
+                    m_ = reg.automat.machine_of(cd)
+                except Exception:
+                    m_ = None
+                if m_ is not None:
+                    machines[cd.name] = list(m_.states)
+        return {"real_classes": sorted(reg.repo_classes), "machines": machines,
+                "modelled": sorted(k for k, h in reg.boundary.items() if getattr(h, "__name__", "") != "generic_boundary"),
+                "inputs_recorded": bool(reg.automat is None and getattr(reg, "input_as_boundary", False)), "decisions": [str(x) for x in unit], "outcome": "return" if outcome == "return" else "raise",
+                "inputs": inputs, "expect": expect, "notes": notes, "determinacy_checked": need_det}
+
+    first = build(s.model())
+    if "skip" in first:
+        return first
+    # more models of the same path, pushed away from the solver's favourite corner (empty strings, zeros): a
+    # defect of the encoding that only shows on longer inputs would otherwise never be exercised
+    more = []
+    seen_models = [s.model()]
+    str_consts = [cz for cz in in_consts.values() if cz.sort().kind() == z3.Z3_SEQ_SORT]
+    int_consts = [cz for cz in in_consts.values() if cz.sort().kind() == z3.Z3_INT_SORT]
+    plain = [cz for cz in in_consts.values() if cz.sort().kind() in (z3.Z3_SEQ_SORT, z3.Z3_INT_SORT, z3.Z3_BOOL_SORT)]
+    for attempt in range(EXTRA_WITNESSES):
+        if not plain:
+            break
+        got = None
+        pushes = [[z3.Length(cz) >= 2 + attempt for cz in str_consts] +
+                  [z3.And([cz != m0.eval(cz, model_completion=True) for m0 in seen_models]) for cz in int_consts]] \
+            if (str_consts or int_consts) else []
+        pushes.append([z3.And([z3.Or([cz != m0.eval(cz, model_completion=True) for cz in plain]) for m0 in seen_models])])
+        for cons in pushes:
+            s.push()
+            try:
+                for c_ in cons:
+                    s.add(c_)
+                s.set("timeout", EXTRA_TIMEOUT_MS)
+                if guarded_check(s, EXTRA_TIMEOUT_MS) == z3.sat:
+                    got = s.model()
+            except z3.Z3Exception:
+                got = None
+            finally:
+                s.pop()
+            if got is not None:
+                break
+        if got is None:
+            break
+        seen_models.append(got)
+        w2 = build(got)
+        if "skip" not in w2:
+            more.append({"inputs": w2["inputs"], "expect": w2["expect"], "outcome": w2["outcome"], "notes": w2["notes"]})
+    first["more"] = more
+    return first
 
 
 # ------------------------------------------------------------------ one task -> native run + comparison (in finish)
@@ -549,7 +593,8 @@ def exc_agrees(sym, native_name, native_mro):
 
 def run_task(c, partials, info):
     """partials: the run_unit results of one task.  Runs all witnesses natively (one subprocess) and compares."""
-    res = {"function": c.target, "paths_in_scope": 0, "paths_checked": 0, "agree": 0, "skipped": {}, "mismatches": []}
+    res = {"function": c.target, "paths_in_scope": 0, "paths_checked": 0, "agree": 0, "witnesses_run": 0, "skipped": {},
+           "mismatches": []}
     wits = []
     for p in partials:
         x = p.get("xcheck")
@@ -561,8 +606,15 @@ def run_task(c, partials, info):
             res["skipped"][k] = res["skipped"].get(k, 0) + 1
             continue
         x = dict(x)
+        x["path"] = npaths = len(set(w["path"] for w in wits))
         x["id"] = len(wits)
         wits.append(x)
+        for m in x.get("more") or []:
+            y = dict(x)
+            y.update(m)
+            y["id"] = len(wits)
+            y["more"] = None
+            wits.append(y)
     if not wits:
         return res
     job = {"target": c.target, "fields": [f for f in (c.self_fields or {}) if not f.startswith("__")],
@@ -605,13 +657,19 @@ def run_task(c, partials, info):
     def sk(reason):
         res["skipped"][reason] = res["skipped"].get(reason, 0) + 1
 
+    verdict = {}        # path -> "agree" | "mismatch" | skip reason (of its first witness)
     for w in wits:
         n = native.get(w["id"])
+        first = w.get("more") is not None
         if n is None:
-            sk(err or "native:no-result")
+            if first:
+                verdict[w["path"]] = err or "native:no-result"
             continue
         if n.get("skip"):
-            sk("native:" + n["skip"])
+            if first:
+                verdict[w["path"]] = "native:" + n["skip"]
+            continue
+        if not first and verdict.get(w["path"]) not in ("agree", "mismatch"):
             continue
         exp = w["expect"]
         diffs = []
@@ -650,24 +708,32 @@ def run_task(c, partials, info):
                     continue
                 if not strict_eq(ev["v"], nf.get("v")):
                     diffs.append({"what": "self." + f, "symbolic": ev["v"], "native": nf.get("v")})
-        res["paths_checked"] += 1
+        res["witnesses_run"] += 1
         if diffs:
-            res["mismatches"].append({"function": c.target, "decisions": w["decisions"], "inputs": w["inputs"],
-                                      "differences": diffs, "notes": w.get("notes", [])})
+            if verdict.get(w["path"]) != "mismatch":       # one report per path
+                res["mismatches"].append({"function": c.target, "decisions": w["decisions"], "inputs": w["inputs"],
+                                          "differences": diffs, "notes": w.get("notes", [])})
+            verdict[w["path"]] = "mismatch"
+        elif verdict.get(w["path"]) != "mismatch":
+            verdict[w["path"]] = "agree"
+    for v in verdict.values():
+        if v in ("agree", "mismatch"):
+            res["paths_checked"] += 1
+            res["agree"] += 1 if v == "agree" else 0
         else:
-            res["agree"] += 1
+            sk(v)
     return res
 
 
 def merge(per_task):
     """coverage.xcheck of a property from the per-task results"""
-    out = {"functions": 0, "functions_checked": 0, "paths_in_scope": 0, "paths_checked": 0, "agree": 0,
+    out = {"functions": 0, "functions_checked": 0, "paths_in_scope": 0, "paths_checked": 0, "agree": 0, "witnesses_run": 0,
            "skipped": {}, "mismatches": [], "per_function": []}
     for r in per_task:
         out["functions"] += 1
         out["functions_checked"] += 1 if r["paths_checked"] else 0
-        for k in ("paths_in_scope", "paths_checked", "agree"):
-            out[k] += r[k]
+        for k in ("paths_in_scope", "paths_checked", "agree", "witnesses_run"):
+            out[k] += r.get(k, 0)
         for k, n in r["skipped"].items():
             out["skipped"][k] = out["skipped"].get(k, 0) + n
         out["mismatches"] += r["mismatches"]
